@@ -1272,3 +1272,37 @@ func isNamedResult(fn *ssa.Function, a *ssa.Alloc) bool {
 	}
 	return loads > 0
 }
+
+// ResultSlot returns the spill slot (alloc) of result idx of fn, if the
+// function keeps its results in memory (named results observed by defers).
+func ResultSlot(fn *ssa.Function, idx int) *ssa.Alloc {
+	for _, ret := range Returns(fn) {
+		if idx >= len(ret.Results) {
+			continue
+		}
+		if ld, ok := ret.Results[idx].(*ssa.UnOp); ok && ld.Op == token.MUL {
+			if a, ok := ld.X.(*ssa.Alloc); ok && isNamedResult(fn, a) {
+				return a
+			}
+		}
+	}
+	return nil
+}
+
+// FreeVarBoundTo reports whether free variable fv of closure cl is bound to
+// value v at (one of) the MakeClosure sites in parent.
+func FreeVarBoundTo(parent *ssa.Function, cl *ssa.Function, fv *ssa.FreeVar, v ssa.Value) bool {
+	found := false
+	EachInstr(parent, func(in ssa.Instruction) {
+		mc, ok := in.(*ssa.MakeClosure)
+		if !ok || mc.Fn != ssa.Value(cl) {
+			return
+		}
+		for i, b := range mc.Bindings {
+			if cl.FreeVars[i] == fv && b == v {
+				found = true
+			}
+		}
+	})
+	return found
+}
